@@ -1,5 +1,6 @@
 """C14 — integer range strings expand to the denoted set and compress back canonically."""
 import itertools
+import random
 import re
 
 import wire
@@ -13,7 +14,20 @@ RULE = ("texts: every subset of {0..11} as a shuffled comma list (quick and thor
         "each followed by a random sequence of read accessors (len/iter/list/set/cstr/has) and append/remove calls. "
         "non-trivial = at least one interval of width>=2 or an append/remove, distinct by request line. "
         "int hashing is not affected by PYTHONHASHSEED, so hash seeds are not varied; '_' digit separators and "
-        "non-ASCII digits (accepted by int()) are not generated.")
+        "non-ASCII digits (accepted by int()) are not generated. "
+        "OPTION STREAMS (channel rangex, 1200 random + 13 fixed + malformed texts in quick): the constructor with "
+        "result_type int / float / an invalid type and reverse on/off; as_list(result_type=) and as_set(result_type=) over "
+        "every rung of the ladder (auto, None, an interface instance, str, int, float, invalid) with container kind and "
+        "member type compared; append(val, sort=, ignore_errors=) with an int, a decimal str and a non-numeric str; "
+        "remove(arg, ignore_errors=) with an int, a decimal str and None; insert; on empty and non-empty ranges; "
+        "about 40% of these ranges are built with reverse=True and the read sequences interleave as_list()/as_set() (every cast) with "
+        "iteration, len, str(), repr(), obj[k] (inside and beyond the end), == against a freshly parsed range and the raw obj.data "
+        "(reverse must show in as_list only; reading must not change the object); the "
+        "generator steers values to members / non-members and keeps append(member, ignore_errors=True) (known finding "
+        "FC14a, after which the oracle stops judging that sequence) to a small share. A float range ('' only) gets "
+        "reads only. Anchored statements executed by the quick run: 194 of 326 (was 141); the 132 left are "
+        "trunk_vlans_allowed (73, checked by C19), interface / str / float member branches (C15 or unsupported), debug "
+        "logging and unreachable branches (notes/coverage/C14.json).")
 LEVEL_TEXT = ("Theorems (Lean 4, all inputs, no bound on size or magnitude): accepted range texts expand to exactly the union of "
               "their closed intervals, strictly ascending (parse_denotes); append/remove are sorted-set insert/delete raising exactly on "
               "duplicate/absent; ordered views equal the state; for every strictly ascending S the index loop of as_compressed_str "
@@ -24,6 +38,13 @@ LEVEL_TEXT = ("Theorems (Lean 4, all inputs, no bound on size or magnitude): acc
               "compress_injective); any blank-free list of parts lo / lo-hi joined by ',' parses to the sorted union of its parts "
               "(parse_written_parts); every read accessor, any sequence of them, and a failed append/remove leave the state unchanged "
               "(readers_pure, readers_pure_seq, failed_mutation_pure, stated about the model function stepOp that the driver executes). "
+              "Options (Model/RangeX.lean): construct_int / construct_rejects (result_type int is parse, an invalid type is always refused, "
+              "float for every non-empty text); as_list_ordered / as_set_members (for every state and every cast str/int/float/auto the view "
+              "holds each member once, ascending, descending exactly under reverse=True); appendX_plain / removeX_plain (default flags = "
+              "append / remove), appendX_ignore_new, removeX_ignore, appendX_other_forms (sort=False, str and non-numeric values), "
+              "appendX_ignore_dup_witness (known finding FC14a: append(member, ignore_errors=True) leaves the member twice); readersX_pure, "
+              "readersX_pure_seq, failedX_pure, stepX_old_state; reverse_only_in_as_list / reverse_not_in_readers (every call other than as_list answers "
+              "and acts the same under either reverse flag), further_readers (obj.data = iteration, obj[k] and its IndexError, == against a freshly parsed range). "
               "The model is tied to CiscoRange(result_type=int) by differential runs on every check "
               "(all 4096 subsets of 0..11 plus random interval lists and accessor/mutator sequences).")
 LEVEL_NOTE = ("Trusted: Lean kernel; axioms propext/Classical.choice/Quot.sound only; the correspondence harness; model of int() "
@@ -36,7 +57,7 @@ ASSUMPTIONS = [
     "model int() = optional surrounding whitespace, optional sign, ASCII digits",
     "members are natural numbers (a part containing '-' is split on it, so no negative value can be written)",
 ]
-TRUSTED = ["CiscoRange(result_type=int) only; interface ranges are C15"]
+TRUSTED = ["CiscoRange on integers only (result_type=int, and the rejection of float / invalid types); interface ranges are C15"]
 
 READS = ["len", "iter", "list", "set", "cstr", "rexp"]
 
@@ -88,6 +109,102 @@ def _rand_ops(rng, text):
     return ops
 
 
+# ---------------------------------------------------------------- option streams (channel `rangex`)
+# constructor options result_type (int / float / an invalid type) and reverse; every rung of the result_type ladder of
+# as_list / as_set; append(sort=, ignore_errors=) with an int, a decimal str, a non-numeric str; remove(ignore_errors=)
+# with an int, a decimal str, None; insert.
+VIEW_TYPES = ["auto", "none", "inst", "str", "int", "float", "bad"]
+
+
+def mkx(text, rt, rev, ops, origin="gen"):
+    return {"text": text, "ops": ops, "x": {"rt": rt, "rev": int(bool(rev))}, "_origin": origin,
+            "req": wire.req("rangex", wire.enc_str(text), rt, str(int(bool(rev))), *ops)}
+
+
+def _rand_xops(rng, text):
+    nums = [int(x) for x in re.findall(r"\d+", text)] or [0]
+    cur = set(ref_denote(text) or ())      # only steers the choice of values (members / non-members)
+    ops = []
+    for _ in range(rng.choice([2, 3, 4, 6, 9])):
+        r = rng.random()
+        n = max(0, rng.choice(nums) + rng.choice([-1, 0, 0, 0, 1, 2]))
+        if r < 0.25:
+            ops.append(rng.choice(["list", "set"]) + ":" + rng.choice(VIEW_TYPES))
+        elif r < 0.35:
+            ops.append(rng.choice(READS + ["has:%d" % n]))
+        elif r < 0.45:
+            ops.append(rng.choice(["str", "repr", "eqfresh", "data", "idx:%d" % rng.choice([0, 0, 1, 2, 5, len(cur), len(cur) + 1,
+                                                                                              max(0, len(cur) - 1)])]))
+        elif r < 0.7:
+            ign = rng.choice("01")
+            if ign == "1" and n in cur and rng.random() < 0.85:
+                # appending a member with ignore_errors=True is the known finding FC14a, after which the oracle stops
+                # judging the sequence: keep it to a small share
+                n = max(cur) + rng.choice([1, 2, 3])
+            val = rng.choice(["i%d" % n] * 5 + ["s%d" % n] * 2 + ["j"])
+            ops.append("appx:%s:%s%s" % (val, rng.choice("1110"), ign))
+            if val != "j":
+                cur.add(n)
+        elif r < 0.9:
+            val = rng.choice(["i%d" % n] * 5 + ["s%d" % n] * 2 + ["j"])
+            ops.append("remx:%s:%s" % (val, rng.choice("01")))
+            if val[0] == "i":
+                cur.discard(n)
+        elif r < 0.95:
+            ops.append("ins:%d" % n)
+        else:
+            ops.append(rng.choice(["app", "rem"]) + ":%d" % n)
+        if ":s" in ops[-1]:
+            ops.append("iter")      # a str argument may be refused or converted: the oracle looks at once which it was
+        elif rng.random() < 0.5:
+            ops.append(rng.choice(["iter", "len", "list", "cstr", "data", "str", "set", "eqfresh"]))
+    ops += ["iter", "list:int", "data", "cstr"]
+    return ops
+
+
+X_FIXED = [
+    ("", "bad", 0, ["iter"]), ("1-3", "bad", 0, ["iter"]), ("1,,3", "bad", 1, ["iter"]), ("1,,3", "float", 0, ["iter"]),
+    ("", "float", 0, ["len", "iter", "cstr", "list", "set", "list:int", "set:str", "list:none", "set:none", "list:inst",
+                      "set:inst", "list:bad", "set:bad"]),
+    ("1-3", "float", 1, ["iter"]), ("7", "float", 0, ["iter"]),
+    ("", "int", 0, ["list", "set", "list:none", "set:none", "list:inst", "set:inst", "list:float", "set:bad",
+                    "remx:i1:0", "remx:i1:1", "remx:j:0", "remx:j:1", "appx:j:10", "appx:j:11", "appx:s4:10", "iter",
+                    "appx:s4:11", "iter", "len", "list:int"]),
+    ("", "int", 1, ["appx:i4:00", "appx:i2:00", "iter", "list", "appx:i3:10", "iter", "list:str", "cstr"]),
+    ("1-3,7", "int", 1, ["list", "data", "iter", "set", "data", "str", "repr", "idx:0", "idx:3", "idx:4", "eqfresh", "list:str", "data",
+                         "len", "eqfresh"]),
+    ("", "int", 1, ["str", "repr", "idx:0", "eqfresh", "data", "list", "data"]),
+    ("", "float", 1, ["str", "repr", "idx:0", "eqfresh", "data"]),
+    ("1-3,7", "int", 1, ["list", "set", "iter", "cstr", "list:str", "list:int", "list:float", "set:float", "list:none",
+                         "set:none", "list:inst", "set:inst", "list:bad", "set:bad", "ins:5", "iter"]),
+    ("1-3,7", "int", 0, ["appx:s9:10", "appx:j:10", "appx:j:11", "appx:s9:11", "iter", "remx:s9:1", "iter", "remx:s9:0",
+                         "iter", "remx:j:0", "remx:j:1", "remx:i55:1", "remx:i55:0", "remx:i2:1", "iter", "len"]),
+    ("5,1-3", "int", 0, ["appx:i0:00", "iter", "list", "cstr", "len", "appx:i4:10", "iter"]),
+    ("1-3,7", "int", 0, ["appx:i2:11", "iter", "len", "list", "cstr"]),
+    ("1-3,7", "int", 0, ["appx:s7:11", "iter", "len", "remx:i7:0", "iter"]),
+]
+
+
+def x_cases(rng, tier):
+    if tier != "search":
+        for t, rt, rev, ops in X_FIXED:
+            yield mkx(t, rt, rev, ops)
+        for t in MALFORMED:
+            yield mkx(t, rng.choice(["int", "float", "bad"]), rng.random() < 0.5, ["iter", "list:int"])
+    n = {"quick": 1200, "thorough": 30000, "search": 1500}[tier]
+    for i in range(n):
+        t = _rand_text(rng)
+        if rng.random() < 0.05:
+            t = rng.choice(MALFORMED) + rng.choice(["", ",", ",3"]) + (t if rng.random() < 0.5 else "")
+        r = rng.random()
+        rt = "int" if r < 0.92 else ("float" if r < 0.96 else "bad")
+        ops = _rand_xops(rng, t)
+        if rt == "float":
+            # CiscoRange("", result_type=float) is an empty range whose appended members would be floats: reads only
+            ops = [o for o in ops if not o.startswith(("app", "rem"))]
+        yield mkx(t, rt, rng.random() < 0.4, ops)
+
+
 def cases(rng, tier):
     if tier != "search":
         for bits in range(4096):
@@ -102,6 +219,12 @@ def cases(rng, tier):
         if rng.random() < 0.05:
             t = rng.choice(MALFORMED) + rng.choice(["", ",", ",3"]) + (t if rng.random() < 0.5 else "")
         yield mk(t, _rand_ops(rng, t))
+    yield from x_cases(random_child(rng), tier)
+
+
+def random_child(rng):
+    """an independent stream for the option cases, so that the older streams keep the cases they had"""
+    return random.Random(rng.getrandbits(64) ^ 0xC14)
 
 
 def neighbours(case, rng):
@@ -112,14 +235,23 @@ def neighbours(case, rng):
             del s[rng.randrange(len(s))]
         else:
             s.insert(rng.randrange(len(s) + 1), rng.choice("0123456789,- "))
-        yield mk("".join(s), case["ops"])
+        if any(int(x) > 200000 for x in re.findall(r"\d+", "".join(s))):
+            continue      # stay near the property's value range (an interval up to 10**9 takes minutes to expand)
+        if "x" in case:
+            yield mkx("".join(s), case["x"]["rt"], case["x"]["rev"], case["ops"])
+        else:
+            yield mk("".join(s), case["ops"])
 
 
 def nontrivial(case):
+    if "x" in case:
+        return any(":" in o and not o.startswith("has") for o in case["ops"]) or case["x"]["rt"] != "int"
     return bool(re.search(r"\d\s*-\s*\d", case["text"])) or any(o[:3] in ("app", "rem") for o in case["ops"])
 
 
 def describe(case):
+    if "x" in case:
+        return {"text": case["text"], "result_type": case["x"]["rt"], "reverse": bool(case["x"]["rev"]), "ops": case["ops"]}
     return {"text": case["text"], "ops": case["ops"]}
 
 
@@ -128,12 +260,120 @@ def buckets(case, ans):
     out.append("parts:%d" % min(9, case["text"].count(",") + 1))
     for o in case["ops"]:
         out.append("op:" + o.split(":")[0])
+    if "x" in case:
+        out.append("ctor:%s,reverse=%d" % (case["x"]["rt"], case["x"]["rev"]))
+        for o in case["ops"]:
+            f = o.split(":")
+            if f[0] in ("list", "set") and len(f) == 2:
+                out.append("view:%s(%s)" % (f[0], f[1]))
+            elif f[0] == "appx":
+                out.append("append:%s,sort=%s,ignore_errors=%s" % (f[1][0], f[2][0], f[2][1]))
+            elif f[0] == "remx":
+                out.append("remove:%s,ignore_errors=%s" % (f[1][0], f[2]))
     return out
 
 
 # ------------------------------------------------------------------ implementation
+def _enc_view(r):
+    """container kind + member type + members (a set is listed ascending)"""
+    kind = "L" if type(r) is list else "S" if type(r) is set else "?"
+    items = list(r)
+    tys = {type(x) for x in items}
+    if not items:
+        tag, nums = "e", []
+    elif tys == {int}:
+        tag, nums = "i", items
+    elif tys == {str} and all(re.fullmatch(r"0|[1-9][0-9]*", x) for x in items):
+        tag, nums = "s", [int(x) for x in items]
+    elif tys == {float} and all(x == int(x) for x in items):
+        tag, nums = "f", [int(x) for x in items]
+    else:
+        return kind + "?:" + repr(items)[:60]
+    if kind == "S":
+        nums = sorted(nums)
+    return kind + tag + ":" + wire.enc_nats(nums)
+
+
+def _impl_x(case):
+    from ciscoconfparse2.ccp_util import CiscoRange, CiscoIOSInterface
+    from ciscoconfparse2.errors import InvalidCiscoRange
+    rt = {"int": int, "float": float, "bad": bool}[case["x"]["rt"]]
+    try:
+        obj = CiscoRange(case["text"], result_type=rt, reverse=bool(case["x"]["rev"]))
+    except (InvalidCiscoRange, ValueError, NotImplementedError) as e:
+        return "err:" + type(e).__name__
+    view_arg = {"none": None, "str": str, "int": int, "float": float, "bad": bool}
+
+    def value(w, junk):
+        return junk if w == "j" else int(w[1:]) if w[0] == "i" else w[1:]
+
+    out = ["ok"]
+    for op in case["ops"]:
+        f = op.split(":")
+        name = f[0]
+        try:
+            if name in ("list", "set"):
+                meth = obj.as_list if name == "list" else obj.as_set
+                if len(f) == 1 or f[1] == "auto":
+                    out.append(_enc_view(meth()))
+                elif f[1] == "inst":
+                    out.append(_enc_view(meth(result_type=CiscoIOSInterface("Ethernet1"))))
+                else:
+                    out.append(_enc_view(meth(result_type=view_arg[f[1]])))
+            elif name == "len":
+                out.append(str(len(obj)))
+            elif name == "iter":
+                out.append(wire.enc_nats(list(iter(obj))) if all(type(x) is int for x in obj) else "?" + repr(list(obj))[:60])
+            elif name == "cstr":
+                out.append(wire.enc_str(obj.as_compressed_str()))
+            elif name == "rexp":
+                out.append(wire.enc_nats(list(CiscoRange(obj.as_compressed_str(), result_type=int))))
+            elif name == "has":
+                out.append("T" if int(f[1]) in obj else "F")
+            elif name == "str":
+                out.append(wire.enc_str(str(obj)))
+            elif name == "repr":
+                out.append(wire.enc_str(repr(obj)))
+            elif name == "idx":
+                v = obj[int(f[1])]
+                out.append(str(v) if type(v) is int else "?" + repr(v)[:40])
+            elif name == "eqfresh":
+                r = obj == CiscoRange(case["text"], result_type=rt)
+                out.append("T" if r is True else "F" if r is False else "?" + repr(r)[:40])
+            elif name == "data":
+                d = obj.data
+                out.append(wire.enc_nats(d) if type(d) is list and all(type(x) is int for x in d) else "?" + repr(d)[:60])
+            elif name == "app":
+                obj.append(int(f[1]))
+                out.append("ok")
+            elif name == "appx":
+                obj.append(value(f[1], "abc"), sort=f[2][0] == "1", ignore_errors=f[2][1] == "1")
+                out.append("ok")
+            elif name in ("rem", "remx"):
+                try:
+                    if name == "rem":
+                        obj.remove(int(f[1]))
+                    else:
+                        obj.remove(value(f[1], None), ignore_errors=f[2] == "1")
+                    out.append("ok")
+                except Exception:  # the class differs by path (MismatchedType, UnboundLocalError, ValueError)
+                    out.append("err:absent")
+            elif name == "ins":
+                obj.insert(0, int(f[1]))
+                out.append("ok")
+            else:
+                raise AssertionError(op)
+        except AssertionError:
+            raise
+        except Exception as e:  # noqa: BLE001  (the class is part of the compared answer)
+            out.append("err:" + type(e).__name__)
+    return "|".join(out)
+
+
 def impl(case):
     quiet_ccp()
+    if "x" in case:
+        return _impl_x(case)
     from ciscoconfparse2.ccp_util import CiscoRange
     from ciscoconfparse2.errors import InvalidCiscoRange, DuplicateMember
     try:
@@ -218,7 +458,178 @@ def ref_compress(members):
     return ",".join(out)
 
 
+def _judge_x(state, op, got, rev, case_text="", rt_is_int=True):
+    """One call against one candidate state (members, iteration still ordered?, member duplicated by an ignored
+    append or None).  Returns (complaint or None, successor states).  A str / None argument is outside what the
+    property fixes: such a call may be refused or taken as the integer it spells, nothing else."""
+    cur, ordered, dup = state
+    f = op.split(":")
+    name = f[0]
+    asc = sorted(cur)
+    same = [state]
+    label = name
+    if name == "data":
+        # the raw member list is what iteration shows
+        name = "iter"
+    elif name in ("str", "repr"):
+        text = wire.dec_str(got) if got.startswith("s") else got
+        if name == "repr":
+            m = re.fullmatch(r"<CiscoRange (\[[0-9, ]*\]) (members|result_type): <class '(int|float)'>>", text)
+            if not m or (m.group(2) == "members") != bool(cur) and dup is None:
+                return f"repr is {text[:80]!r}", same
+            text = m.group(1)
+        if not re.fullmatch(r"\[(\d+(, \d+)*)?\]", text):
+            return f"{name} is {text[:80]!r}", same
+        name, got = "iter", text[1:-1].replace(" ", "")
+    elif name == "idx":
+        k = int(f[1])
+        if dup is not None or not ordered:
+            return None, same
+        if k < len(asc):
+            return (None if got == str(asc[k]) else f"obj[{k}] is {got} expected {asc[k]}"), same
+        return (None if got == "err:IndexError" else f"obj[{k}] beyond the end gives {got}"), same
+    elif name == "eqfresh":
+        if dup is not None or not ordered:
+            return None, same
+        fresh = ref_denote(case_text) if rt_is_int else set()
+        want = "T" if cur == fresh else "F"
+        return (None if got == want else f"== against a freshly parsed range is {got}, members {'unchanged' if want == 'T' else 'changed'}"), same
+    if name == "len":
+        if int(got) != len(cur):
+            if dup is not None and int(got) > len(cur):
+                return f"duplicate-after-ignore: append({dup}, ignore_errors=True) of a member: len gives {got}", None
+            return f"len {got} != {len(cur)}", same
+    elif name == "iter":
+        if got.startswith("?"):
+            return f"iteration gives non-integers {got[:60]}", same
+        seen = got.split(",") if got else []
+        if dup is not None and len(seen) > len(set(seen)) and sorted(set(seen)) == sorted(map(str, asc)):
+            return f"duplicate-after-ignore: append({dup}, ignore_errors=True) of a member: iter gives {got[:60]}", None
+        if ordered and got != wire.enc_nats(asc):
+            return f"{label} view is {got[:80]} expected ascending {wire.enc_nats(asc)[:80]}", same
+        if not ordered and sorted(seen) != sorted(map(str, asc)):
+            return f"{label} view is {got[:80]}, members are {wire.enc_nats(asc)[:80]}", same
+    elif name in ("list", "set"):
+        t = f[1] if len(f) > 1 else "auto"
+        if t in ("none", "inst", "bad"):
+            return None, same      # the property does not say what an interface cast of an integer is
+        if got.startswith("err"):
+            return f"{op} raised {got}", same
+        items = asc if (name == "set" or not rev) else asc[::-1]
+        tag = {"auto": "i", "int": "i", "str": "s", "float": "f"}[t]
+        exp = (tag if items else "e") + ":" + wire.enc_nats(items)
+        if got[1:] != exp:
+            return (f"{op} gives {got[:80]} expected {exp[:80]}" + (" (reverse=True)" if rev and name == "list" else "")), same
+        if items and got[0] != ("L" if name == "list" else "S"):
+            return f"{op} returned the wrong container kind {got[0]}", same
+    elif name == "cstr":
+        exp = ref_compress(cur)
+        sgot = wire.dec_str(got) if got.startswith("s") else got
+        if sgot != exp:
+            return f"compressed string {sgot[:80]!r} expected canonical {exp[:80]!r}", same
+    elif name == "rexp":
+        if got != wire.enc_nats(asc):
+            return f"re-expanding the compressed string gives {got[:80]}", same
+    elif name == "has":
+        if (got == "T") != (int(f[1]) in cur):
+            return f"membership of {f[1]} is {got}", same
+    elif name in ("app", "appx"):
+        val = "i" + f[1] if name == "app" else f[1]
+        sort, ign = (True, False) if name == "app" else (f[2][0] == "1", f[2][1] == "1")
+        if val == "j":
+            return None, same      # "abc": refused or skipped, the members stay
+        n = int(val[1:])
+        grown = (cur | {n}, ordered and (sort or n in cur), dup if n not in cur or not ign else (n if dup is None else dup))
+        if val[0] == "s":
+            return None, (same if got != "ok" else [state, grown])
+        if n in cur:
+            if got == "ok" and not ign:
+                return f"append of duplicate {n} did not raise", same
+            if got != "ok" and ign:
+                return f"append({n}, ignore_errors=True) raised {got}", same
+            return None, ([grown] if ign else same)
+        if got != "ok":
+            return f"append of new member {n} raised {got}", same
+        return None, [grown]
+    elif name in ("rem", "remx"):
+        val = "i" + f[1] if name == "rem" else f[1]
+        ign = name == "remx" and f[2] == "1"
+        if val == "j":
+            if got == "ok" and not ign:
+                return "remove(None) did not raise", same
+            return None, same
+        n = int(val[1:])
+        shrunk = (cur - {n}, ordered, None if dup == n else dup)
+        if val[0] == "s":
+            if got == "ok" and n not in cur and not ign:
+                return f"remove('{n}') of an absent member did not raise", same
+            return None, (same if got != "ok" else [state, shrunk])
+        if n in cur:
+            if got != "ok":
+                return f"remove of member {n} raised", [shrunk]
+            return None, [shrunk]
+        if got == "ok" and not ign:
+            return f"remove of absent {n} did not raise", same
+        if got != "ok" and ign:
+            return f"remove({n}, ignore_errors=True) of an absent member raised", same
+    elif name == "ins":
+        if got == "ok":
+            return None, [(cur | {int(f[1])}, ordered, dup)]
+    return None, same
+
+
+def _oracle_x(case, ans):
+    """What the property says about the option forms: an ordered view lists the members once each, ascending
+    (descending when the range was built with reverse=True) in the cast that was asked for; append / remove act as set
+    insert / delete whatever the flags (ignore_errors only silences the error, sort=False only gives up the order of
+    iteration); accessors, refused calls and insert change nothing."""
+    rt, rev = case["x"]["rt"], bool(case["x"]["rev"])
+    want = ref_denote(case["text"])
+    if rt != "int":
+        if case["text"] != "" and not ans.startswith("err"):
+            return [f"result_type {rt} accepted for a non-empty text"]
+        if rt == "bad" and not ans.startswith("err"):
+            return ["an invalid result_type was accepted"]
+        if ans.startswith("err"):
+            return []
+        want = set()
+    if want is None:
+        return []
+    if ans.startswith("err"):
+        return [f"well-formed range text rejected with {ans}"]
+    fields = ans.split("|")[1:]
+    fails = []
+    states = [(frozenset(want), True, None)]
+    for op, got in zip(case["ops"], fields):
+        nxt, msgs = [], []
+        for st in states:
+            msg, succ = _judge_x(st, op, got, rev, case["text"], rt == "int")
+            if msg is None:
+                nxt += [s for s in succ if s not in nxt]
+            else:
+                msgs.append((msg, succ))
+        if nxt:
+            states = nxt
+            continue
+        # no candidate state explains the answer
+        msg, succ = ([m for m in msgs if m[1] is None] or msgs)[0]
+        fails.append(msg)
+        if succ is None:      # the known finding FC14a: the rest of this sequence is not judged
+            return fails[:3]
+        states = [s for _, ss in msgs for s in (ss or [])] or states
+    return fails[:3]
+
+
+def known_id(case, failure):
+    if ("x" in case and failure.startswith("duplicate-after-ignore:")
+            and any(o.startswith("appx:") and o.endswith("1") for o in case["ops"])):
+        return "FC14a"
+    return None
+
+
 def oracle(case, ans):
+    if "x" in case:
+        return _oracle_x(case, ans)
     want = ref_denote(case["text"])
     if want is None:
         return []
